@@ -33,7 +33,7 @@ Print Assumptions c16_no_invented_condition.
    already carries a foreign condition; an interleaved schedule in which every thread finishes *)
 Example c16_flags_example :
   let progs := [[HSet 1; HClear 1]; [HSet 2]; [HClear 9223372036854775808]] in
-  let sched := [0; 1; 2; 0; 1; 2; 0; 1; 2; 0; 1; 2; 0; 1; 2; 0; 1; 2; 0; 0; 0; 0]%nat in
+  let sched := [0; 1; 2; 0; 1; 2; 0; 1; 2; 0; 1; 2; 0; 1; 2; 0; 1; 2; 0; 0; 0; 0; 1; 1; 2; 2; 0; 0; 1; 1; 2; 2]%nat in
   cross_disjoint progs /\
   all_done (fst (hrun health_set_shape health_clear_shape sched progs (9223372036854775808 + 256))) = true /\
   snd (hrun health_set_shape health_clear_shape sched progs (9223372036854775808 + 256)) = 258.
